@@ -60,7 +60,7 @@ Proof.
   intros Hne. induction s as [|[k w] r IH]; simpl.
   - destruct (t =? u) eqn:E; auto. apply Z.eqb_eq in E. contradiction.
   - destruct (k =? t) eqn:E; simpl.
-    + apply Z.eqb_eq in E. subst. reflexivity.
+    + apply Z.eqb_eq in E. subst. apply Z.eqb_neq in Hne. rewrite Hne. reflexivity.
     + rewrite IH. reflexivity.
 Qed.
 
@@ -389,3 +389,584 @@ Proof.
     + left. unfold leader_failed. apply existsb_exists. exists (t, i). split; [apply find_in; auto|].
       apply existsb_exists. exists p. split; auto. simpl. unfold has_leader. rewrite Hl. reflexivity.
 Qed.
+
+(* ---------------------------------------------------------------------------------------------
+   C12, one cycle
+   --------------------------------------------------------------------------------------------- *)
+
+(* C12.2  A refresh that was skipped or failed part-way (Topics or any Partitions call) keeps the old snapshot and
+   deletes nothing. *)
+Theorem failed_refresh_keeps_snapshot st e o :
+  cycle st e = Done o -> refreshed st e = None ->
+  snap (co_state o) = snap st /\ co_deletes o = [].
+Proof.
+  intros Hc Hr. apply cycle_done in Hc as [Hs [_ [_ [Hd _]]]].
+  rewrite Hs, Hd, (maybe_refresh_not _ _ Hr). auto.
+Qed.
+
+(* one cycle's deletions: the keys of the old snapshot that a completed refresh does not list; each once *)
+Lemma deletes_cycle st e o :
+  wf st -> cycle st e = Done o ->
+  (forall t, In t (co_deletes o) <->
+     exists ts, refreshed st e = Some ts /\ ~ In t ts /\ In t (keys (snap st)))
+  /\ NoDup (co_deletes o).
+Proof.
+  intros Hw Hc. apply cycle_done in Hc as [_ [_ [_ [Hd _]]]]. rewrite Hd.
+  destruct (refreshed st e) as [ts|] eqn:Er.
+  - destruct (maybe_refresh_done _ _ _ Er) as [new [Hb ->]]. simpl.
+    destruct (build_some _ _ _ Hb) as [_ [Hin Hout]]. split; [|apply deletions_nodup; auto].
+    intros t. rewrite deletions_in. split.
+    + intros [Hk Hf]. exists ts. split; auto. split; auto. intros Ht. destruct (Hin t Ht) as [H1 H2]. congruence.
+    + intros [ts' [Heq [Hnin Hk]]]. inversion Heq; subst. auto.
+  - rewrite (maybe_refresh_not _ _ Er). simpl. split; [|constructor].
+    intros t. split; [contradiction | intros [ts [H _]]; discriminate].
+Qed.
+
+(* C12.4  A topic the client lists is never deleted in that cycle (whatever else fails). *)
+Theorem present_not_deleted st e o ts t :
+  wf st -> cycle st e = Done o -> e_topics e = Good ts -> In t ts -> ~ In t (co_deletes o).
+Proof.
+  intros Hw Hc Ht Hin Hd. apply (deletes_cycle _ _ _ Hw Hc) in Hd as [ts' [Hr [Hn _]]].
+  apply refreshed_some in Hr as [_ [Ht' _]]. congruence.
+Qed.
+
+Lemma filter_no_leader e t ps : (forall p, e_leader e t p = Fail) -> filter (has_leader e t) ps = [].
+Proof.
+  intros Hl. induction ps as [|a ps IH]; simpl; auto. unfold has_leader at 1. rewrite Hl. apply IH.
+Qed.
+
+(* C12.3  A listed topic whose partitions all have no leader keeps its key (with an empty id list, so nothing is
+   asked for it) and is not deleted. *)
+Theorem leaderless_not_deleted st e o ts t :
+  wf st -> cycle st e = Done o -> refreshed st e = Some ts -> In t ts ->
+  (forall p, e_leader e t p = Fail) ->
+  ~ In t (co_deletes o)
+  /\ (exists i, smap_find t (snap (co_state o)) = Some i /\ ti_ids i = [])
+  /\ (forall b p, ~ In (b, t, p) (co_asks o)).
+Proof.
+  intros Hw Hc Hr Hin Hl. pose proof Hr as Hr'. apply refreshed_some in Hr' as [_ [Ht _]].
+  split; [eapply present_not_deleted; eauto|].
+  assert (exists i, smap_find t (snap (co_state o)) = Some i /\ ti_ids i = []) as [i [Hf Hi]].
+  { pose proof (cycle_done _ _ _ Hc) as [Hs _]. rewrite Hs.
+    destruct (maybe_refresh_done _ _ _ Hr) as [new [Hb ->]]. simpl.
+    destruct (build_some _ _ _ Hb) as [_ [Hin' _]]. destruct (Hin' t Hin) as [H1 H2]. rewrite H1.
+    unfold topic_info in *. destruct (e_parts e t) as [ps|]; [|congruence].
+    eexists. split; [reflexivity|]. simpl. apply filter_no_leader. auto. }
+  split; [eauto|]. intros b p Ha.
+  apply (asked_exactly_leaders _ _ _ Hw Hc) in Ha as [i' [Hf' [Hp _]]].
+  rewrite Hf in Hf'. inversion Hf'; subst. rewrite Hi in Hp. contradiction.
+Qed.
+
+(* ---------------------------------------------------------------------------------------------
+   consecutive cycles: the ghost "last completely refreshed environment"
+   --------------------------------------------------------------------------------------------- *)
+Definition ghost_topics (g : option env) : list Z :=
+  match g with
+  | Some ge => match e_topics ge with Good ts => ts | Fail => [] end
+  | None => []
+  end.
+
+(* what the snapshot must hold for topic t, read off the ghost *)
+Definition ghost_find (g : option env) (t : Z) : option tinfo :=
+  match g with
+  | Some ge => if in_dec Z.eq_dec t (ghost_topics g) then topic_info ge t else None
+  | None => None
+  end.
+
+Definition ghost_ok (g : option env) : Prop :=
+  forall t, In t (ghost_topics g) -> ghost_find g t <> None.
+
+(* the invariant tying the module state to the ghost *)
+Definition inv (st : state) (g : option env) : Prop :=
+  wf st /\ ghost_ok g /\ forall t, smap_find t (snap st) = ghost_find g t.
+
+Lemma inv_init : inv init_state None.
+Proof. split; [apply wf_init|]. split; [intros t []|]. reflexivity. Qed.
+
+Lemma inv_tick tk st g : inv st g -> inv (tick tk st) g.
+Proof. unfold inv, wf, tick. destruct tk; auto. Qed.
+
+Lemma inv_keys st g t : inv st g -> (In t (keys (snap st)) <-> In t (ghost_topics g)).
+Proof.
+  intros [_ [Hok Hf]]. rewrite <- find_some_keys, Hf. split.
+  - intros [i Hi]. unfold ghost_find in Hi. destruct g as [ge|]; [|discriminate].
+    destruct (in_dec Z.eq_dec t (ghost_topics (Some ge))); [auto | discriminate].
+  - intros Hin. specialize (Hok t Hin). destruct (ghost_find g t); [eauto | congruence].
+Qed.
+
+Lemma ghost_find_env e ts t :
+  e_topics e = Good ts ->
+  ghost_find (Some e) t = if in_dec Z.eq_dec t ts then topic_info e t else None.
+Proof. intros H. unfold ghost_find, ghost_topics. rewrite H. reflexivity. Qed.
+
+Lemma inv_cycle st g e o :
+  inv st g -> cycle st e = Done o -> inv (co_state o) (ghost_next st e g).
+Proof.
+  intros [Hw [Hok Hf]] Hc. split; [eapply cycle_wf; eauto|].
+  pose proof (cycle_done _ _ _ Hc) as [Hs _]. rewrite Hs. unfold ghost_next.
+  destruct (refreshed st e) as [ts|] eqn:Er.
+  - destruct (maybe_refresh_done _ _ _ Er) as [new [Hb ->]]. cbn [fst].
+    destruct (build_some _ _ _ Hb) as [_ [Hin Hout]].
+    apply refreshed_some in Er as [_ [Ht _]].
+    split.
+    + intros t Hin'. rewrite (ghost_find_env _ _ _ Ht). unfold ghost_topics in Hin'. rewrite Ht in Hin'.
+      destruct (in_dec Z.eq_dec t ts); [|contradiction]. apply Hin. auto.
+    + intros t. rewrite (ghost_find_env _ _ _ Ht). destruct (in_dec Z.eq_dec t ts) as [H|H].
+      * apply Hin. auto.
+      * apply Hout. auto.
+  - rewrite (maybe_refresh_not _ _ Er). cbn [fst]. auto.
+Qed.
+
+(* every entry of a run satisfies the invariant at its call and is a completed cycle *)
+Lemma trace_inv l : forall st g en,
+  inv st g -> In en (trace st g l) ->
+  inv (en_pre en) (en_ghost en) /\ cycle (en_pre en) (en_env en) = Done (en_out en).
+Proof.
+  induction l as [|[tk e] r IH]; simpl; intros st g en Hi Hin; [contradiction|].
+  destruct (cycle (tick tk st) e) as [o|] eqn:Ec; [|contradiction].
+  destruct Hin as [<-|Hin].
+  - simpl. split; [apply inv_tick; auto | auto].
+  - eapply IH; [|exact Hin]. eapply inv_cycle; [apply inv_tick; eauto | auto].
+Qed.
+
+(* a run cut at an entry: what follows is the run from that entry's result *)
+Lemma trace_split l : forall st g l1 a l2,
+  trace st g l = l1 ++ a :: l2 ->
+  exists r, l2 = trace (co_state (en_out a)) (ghost_next (en_pre a) (en_env a) (en_ghost a)) r.
+Proof.
+  induction l as [|[tk e] r IH]; simpl; intros st g l1 a l2 H.
+  - destruct l1; discriminate.
+  - destruct (cycle (tick tk st) e) as [o|] eqn:Ec; [|destruct l1; discriminate].
+    destruct l1 as [|x l1]; simpl in H; inversion H; subst.
+    + simpl. eauto.
+    + eapply IH; eauto.
+Qed.
+
+(* ---------------------------------------------------------------------------------------------
+   C12 over runs
+   --------------------------------------------------------------------------------------------- *)
+
+(* C12.1  In every cycle of every run from a fresh module: topic t is reported deleted iff this cycle performed a
+   complete refresh whose topic list lacks t and the last complete refresh before it listed t; and at most once in
+   the cycle. *)
+Theorem delete_exactly_once l en t :
+  In en (trace init_state None l) ->
+  (In t (co_deletes (en_out en)) <->
+     exists ts, refreshed (en_pre en) (en_env en) = Some ts /\ ~ In t ts /\ In t (ghost_topics (en_ghost en)))
+  /\ NoDup (co_deletes (en_out en)).
+Proof.
+  intros Hin. destruct (trace_inv _ _ _ _ inv_init Hin) as [Hi Hc].
+  destruct (deletes_cycle _ _ _ (proj1 Hi) Hc) as [Hd Hn]. split; auto.
+  rewrite Hd. split; intros [ts [H1 [H2 H3]]]; exists ts; repeat split; auto; eapply inv_keys; eauto.
+Qed.
+
+(* a topic can only come (back) into the ghost through a complete refresh that lists it *)
+Lemma ghost_gain t l : forall st g l2 b l3,
+  trace st g l = l2 ++ b :: l3 ->
+  ~ In t (ghost_topics g) -> In t (ghost_topics (en_ghost b)) ->
+  exists c ts, In c l2 /\ refreshed (en_pre c) (en_env c) = Some ts /\ In t ts.
+Proof.
+  induction l as [|[tk e] r IH]; simpl; intros st g l2 b l3 H Hn Hg.
+  - destruct l2; discriminate.
+  - destruct (cycle (tick tk st) e) as [o|] eqn:Ec; [|destruct l2; discriminate].
+    destruct l2 as [|c0 l2]; simpl in H; inversion H as [[Hhd Htl]]; subst.
+    + simpl in Hg. contradiction.
+    + destruct (in_dec Z.eq_dec t (ghost_topics (ghost_next (tick tk st) e g))) as [Hy|Hy].
+      * unfold ghost_next in Hy. destruct (refreshed (tick tk st) e) as [ts|] eqn:Er; [|contradiction].
+        exists (mkEntry (tick tk st) e g o), ts. simpl. split; auto. split; auto.
+        apply refreshed_some in Er as [_ [Ht _]]. simpl in Hy. rewrite Ht in Hy. auto.
+      * destruct (IH _ _ _ _ _ Htl Hy Hg) as [c [ts [Hc [Hr Ht]]]]. exists c, ts. simpl. auto.
+Qed.
+
+(* C12.1'  Consequently: between two deletions of t there is a complete refresh in which t was present again
+   (at most one deletion per disappearance). *)
+Theorem one_deletion_per_disappearance l l1 a l2 b l3 t :
+  trace init_state None l = l1 ++ a :: l2 ++ b :: l3 ->
+  In t (co_deletes (en_out a)) -> In t (co_deletes (en_out b)) ->
+  exists c ts, In c l2 /\ refreshed (en_pre c) (en_env c) = Some ts /\ In t ts.
+Proof.
+  intros H Ha Hb.
+  assert (Hina : In a (trace init_state None l)) by (rewrite H; apply in_elt).
+  assert (Hinb : In b (trace init_state None l)).
+  { rewrite H. apply in_or_app. right. right. apply in_elt. }
+  apply (delete_exactly_once _ _ _ Hina) in Ha as [ts [Hr [Hnt _]]].
+  apply (delete_exactly_once _ _ _ Hinb) in Hb as [_ [_ [_ Hgb]]].
+  destruct (trace_split _ _ _ _ _ _ H) as [r Hr2].
+  symmetry in Hr2. eapply ghost_gain; [exact Hr2 | | exact Hgb].
+  unfold ghost_next. rewrite Hr. apply refreshed_some in Hr as [_ [Ht _]]. simpl. rewrite Ht. auto.
+Qed.
+
+(* ---------------------------------------------------------------------------------------------
+   C11 over runs
+   --------------------------------------------------------------------------------------------- *)
+
+(* the partitions of topic t that had a leader in, and the partition count of t according to, the last completely
+   refreshed environment (the one of this cycle if its refresh completed) *)
+Definition ghost_now (en : entry) : option env := ghost_next (en_pre en) (en_env en) (en_ghost en).
+
+Lemma entry_post_inv l en :
+  In en (trace init_state None l) -> inv (co_state (en_out en)) (ghost_now en).
+Proof.
+  intros Hin. destruct (trace_inv _ _ _ _ inv_init Hin) as [Hi Hc]. eapply inv_cycle; eauto.
+Qed.
+
+Lemma ghost_find_some g t i :
+  ghost_find g t = Some i <->
+  exists ge ts ps, g = Some ge /\ e_topics ge = Good ts /\ In t ts /\ e_parts ge t = Good ps
+    /\ i = mkTinfo (filter (has_leader ge t) ps) (Z.of_nat (length ps)).
+Proof.
+  unfold ghost_find. destruct g as [ge|]; [|split; [discriminate | intros [? [? [? [? _]]]]; discriminate]].
+  simpl. destruct (e_topics ge) as [ts|] eqn:Et.
+  - destruct (in_dec Z.eq_dec t ts) as [Hin|Hin].
+    + unfold topic_info. destruct (e_parts ge t) as [ps|] eqn:Ep.
+      * split.
+        -- intros H. inversion H; subst. exists ge, ts, ps. auto.
+        -- intros [ge' [ts' [ps' [H1 [H2 [H3 [H4 ->]]]]]]]. inversion H1; subst. congruence.
+      * split; [discriminate|]. intros [ge' [ts' [ps' [H1 [H2 [H3 [H4 _]]]]]]]. inversion H1; subst. congruence.
+    + split; [discriminate|]. intros [ge' [ts' [ps' [H1 [H2 [H3 _]]]]]]. inversion H1; subst.
+      rewrite Et in H2. inversion H2; subst. contradiction.
+  - split; [destruct (in_dec Z.eq_dec t []); [contradiction | discriminate]|].
+    intros [ge' [ts' [ps' [H1 [H2 _]]]]]. inversion H1; subst. congruence.
+Qed.
+
+(* C11.1 over runs.  In every cycle of every run: (t, p) is in broker b's request iff, according to the last
+   complete metadata read (this cycle's if it completed), t exists and p is one of its partitions that had a leader,
+   and the client names b as p's leader now.  Never twice, never to two brokers. *)
+Theorem asked_exactly_leaders_run l en :
+  In en (trace init_state None l) ->
+  (forall b t p, In (b, t, p) (co_asks (en_out en)) <->
+     exists ge ts ps, ghost_now en = Some ge /\ e_topics ge = Good ts /\ In t ts /\ e_parts ge t = Good ps
+       /\ In p ps /\ has_leader ge t p = true /\ e_leader (en_env en) t p = Good b)
+  /\ NoDup (co_asks (en_out en))
+  /\ (forall b b' t p, In (b, t, p) (co_asks (en_out en)) -> In (b', t, p) (co_asks (en_out en)) -> b = b').
+Proof.
+  intros Hin. destruct (trace_inv _ _ _ _ inv_init Hin) as [Hi Hc].
+  destruct (entry_post_inv _ _ Hin) as [_ [_ Hf]].
+  destruct (asked_exactly_leaders _ _ _ (proj1 Hi) Hc) as [Hiff [Hn Hu]]. split; [|auto].
+  intros b t p. rewrite Hiff. split.
+  - intros [i [Hfi [Hp Hl]]]. rewrite Hf in Hfi. apply ghost_find_some in Hfi as [ge [ts [ps [H1 [H2 [H3 [H4 ->]]]]]]].
+    simpl in Hp. apply filter_In in Hp as [Hp Hh]. exists ge, ts, ps. auto 10.
+  - intros [ge [ts [ps [H1 [H2 [H3 [H4 [H5 [H6 H7]]]]]]]]]. eexists. rewrite Hf. split.
+    + apply ghost_find_some. exists ge, ts, ps. auto 10.
+    + simpl. split; auto. apply filter_In. auto.
+Qed.
+
+(* C11.2 over runs.  In every cycle of every run: SetBrokerOffset (t, p, off, c) is sent iff (t, p) was asked of b in
+   this cycle, b's call succeeded, its block has ErrNoError with first offset off -- and then c is the number of
+   partitions of t in the last complete metadata read, leaderless ones included.  At most one update per (t, p). *)
+Theorem answer_to_update_run l en :
+  In en (trace init_state None l) ->
+  (forall t p off c, In (t, p, off, c) (co_updates (en_out en)) <->
+     exists b ans rest ge ps, In (b, t, p) (co_asks (en_out en)) /\ e_answer (en_env en) b = Good ans
+       /\ ans t p = (0, off :: rest)
+       /\ ghost_now en = Some ge /\ e_parts ge t = Good ps /\ c = Z.of_nat (length ps))
+  /\ NoDup (map upd_key (co_updates (en_out en))).
+Proof.
+  intros Hin. destruct (trace_inv _ _ _ _ inv_init Hin) as [Hi Hc].
+  destruct (entry_post_inv _ _ Hin) as [_ [_ Hf]].
+  destruct (answer_to_update _ _ _ (proj1 Hi) Hc) as [Hiff Hn]. split; [|auto].
+  destruct (asked_exactly_leaders_run _ _ Hin) as [Hask _].
+  intros t p off c. rewrite Hiff. split.
+  - intros [b [ans [rest [Ha [H1 [H2 ->]]]]]].
+    pose proof Ha as Ha'. apply Hask in Ha' as [ge [ts [ps [G1 [G2 [G3 [G4 _]]]]]]].
+    exists b, ans, rest, ge, ps. repeat split; auto.
+    unfold count_of. rewrite Hf.
+    assert (ghost_find (ghost_now en) t = Some (mkTinfo (filter (has_leader ge t) ps) (Z.of_nat (length ps)))) as ->.
+    { apply ghost_find_some. exists ge, ts, ps. auto. }
+    reflexivity.
+  - intros [b [ans [rest [ge [ps [Ha [H1 [H2 [G1 [G4 ->]]]]]]]]]]. exists b, ans, rest. repeat split; auto.
+    pose proof Ha as Ha'. apply Hask in Ha' as [ge' [ts [ps' [G1' [G2 [G3 [G4' _]]]]]]].
+    rewrite G1 in G1'. inversion G1'; subst ge'. rewrite G4 in G4'. inversion G4'; subst ps'.
+    unfold count_of. rewrite Hf.
+    assert (ghost_find (ghost_now en) t = Some (mkTinfo (filter (has_leader ge t) ps) (Z.of_nat (length ps)))) as ->.
+    { apply ghost_find_some. exists ge, ts, ps. auto. }
+    reflexivity.
+Qed.
+
+(* C11.3 over runs *)
+Theorem fault_no_update_run l en b t p :
+  In en (trace init_state None l) ->
+  (~ (exists b', In (b', t, p) (co_asks (en_out en))))
+  \/ (In (b, t, p) (co_asks (en_out en)) /\ e_answer (en_env en) b = Fail)
+  \/ (In (b, t, p) (co_asks (en_out en)) /\ exists ans, e_answer (en_env en) b = Good ans /\ fst (ans t p) <> 0) ->
+  forall off c, ~ In (t, p, off, c) (co_updates (en_out en)).
+Proof.
+  intros Hin. destruct (trace_inv _ _ _ _ inv_init Hin) as [Hi Hc]. eapply fault_no_update; eauto. apply Hi.
+Qed.
+
+(* C11.4 over runs.  A per-partition error or an unknown leader in one cycle: the next call of getOffsets finds
+   fetchMetadata set, i.e. it re-reads the metadata (whether or not the ticker fired in between). *)
+Theorem error_forces_refresh l l1 a b l2 :
+  trace init_state None l = l1 ++ a :: b :: l2 ->
+  partition_error (en_env a) (en_out a) \/ unknown_leader (en_env a) (en_out a) ->
+  fetchMetadata (en_pre b) = true.
+Proof.
+  intros H Herr.
+  assert (Hina : In a (trace init_state None l)) by (rewrite H; apply in_elt).
+  destruct (trace_inv _ _ _ _ inv_init Hina) as [Hi Hc].
+  apply (error_sets_flag _ _ _ (proj1 Hi) Hc) in Herr.
+  destruct (trace_split _ _ _ _ _ _ H) as [r Hr].
+  destruct r as [|[tk e] r]; simpl in Hr; [discriminate|].
+  destruct (cycle (tick tk (co_state (en_out a))) e); [|discriminate].
+  inversion Hr; subst. simpl. unfold tick. destruct tk; auto.
+Qed.
+
+(* C11.5  Kafka numbers the partitions of a topic 0..n-1: every id Partitions(t) returns is below the length of the
+   list.  Under that assumption on the environments of the run, every update carries partition < count (what keeps
+   storage's addBrokerOffset inside its ring slice). *)
+Definition env_ids_ok (e : env) : Prop :=
+  forall t ps p, e_parts e t = Good ps -> In p ps -> 0 <= p < Z.of_nat (length ps).
+
+Lemma ghost_from_run l : forall st g en ge,
+  In en (trace st g l) -> ghost_now en = Some ge ->
+  g = Some ge \/ exists x, In x l /\ snd x = ge.
+Proof.
+  induction l as [|[tk e] r IH]; simpl; intros st g en ge Hin Hg; [contradiction|].
+  destruct (cycle (tick tk st) e) as [o|] eqn:Ec; [|contradiction].
+  destruct Hin as [<-|Hin].
+  - unfold ghost_now, ghost_next in Hg. simpl in Hg. destruct (refreshed (tick tk st) e).
+    + inversion Hg; subst. right. exists (tk, ge). auto.
+    + auto.
+  - destruct (IH _ _ _ _ Hin Hg) as [H|[x [Hx1 Hx2]]].
+    + unfold ghost_next in H. destruct (refreshed (tick tk st) e).
+      * inversion H; subst. right. exists (tk, ge). auto.
+      * auto.
+    + right. exists x. auto.
+Qed.
+
+Theorem count_bounds_partition l en t p off c :
+  (forall x, In x l -> env_ids_ok (snd x)) ->
+  In en (trace init_state None l) ->
+  In (t, p, off, c) (co_updates (en_out en)) -> 0 <= p < c.
+Proof.
+  intros Hok Hin Hu.
+  apply (answer_to_update_run _ _ Hin) in Hu as [b [ans [rest [ge [ps [Ha [_ [_ [Hg [Hp ->]]]]]]]]]].
+  apply (asked_exactly_leaders_run _ _ Hin) in Ha as [ge' [ts [ps' [G1 [_ [_ [G4 [G5 _]]]]]]]].
+  rewrite Hg in G1. inversion G1; subst ge'. rewrite Hp in G4. inversion G4; subst ps'.
+  destruct (ghost_from_run _ _ _ _ _ Hin Hg) as [H|[x [Hx <-]]]; [discriminate|].
+  eapply Hok; eauto.
+Qed.
+
+(* a partition without a (findable) leader is in nobody's request *)
+Corollary leaderless_not_asked l en b t p :
+  In en (trace init_state None l) -> e_leader (en_env en) t p = Fail -> ~ In (b, t, p) (co_asks (en_out en)).
+Proof.
+  intros Hin Hl Ha. apply (asked_exactly_leaders_run _ _ Hin) in Ha as [ge [ts [ps [_ [_ [_ [_ [_ [_ H]]]]]]]]].
+  congruence.
+Qed.
+
+(* ---------------------------------------------------------------------------------------------
+   crashes: the only panic of the cycle is Offsets[0] on an ErrNoError block without offsets
+   --------------------------------------------------------------------------------------------- *)
+Definition env_offsets_ok (e : env) : Prop :=
+  forall b ans t p, e_answer e b = Good ans -> fst (ans t p) = 0 -> snd (ans t p) <> [].
+
+Lemma cycle_crash_iff st e :
+  cycle st e = Crash <->
+  exists b t p ans, In (b, t, p) (gen_asks e (fst (maybe_refresh st e)))
+    /\ e_answer e b = Good ans /\ ans t p = (0, []).
+Proof.
+  unfold cycle. destruct (maybe_refresh st e) as [s dels]. cbn [fst].
+  destruct (existsb (is_crash e) (gen_asks e s)) eqn:Ec.
+  - split; [intros _ | reflexivity]. apply existsb_exists in Ec as [[[b t] p] [Hin H]].
+    unfold is_crash, ask_result in H. destruct (e_answer e b) as [ans|] eqn:Ea; [|discriminate].
+    exists b, t, p, ans. split; auto. split; auto. unfold block_result_of in H.
+    destruct (ans t p) as [err offs]. destruct (err =? 0) eqn:E; [|discriminate].
+    apply Z.eqb_eq in E. subst. destruct offs; [reflexivity | discriminate].
+  - split; [discriminate|]. intros [b [t [p [ans [Hin [Ha Hb]]]]]]. exfalso.
+    assert (existsb (is_crash e) (gen_asks e s) = true); [|congruence].
+    apply existsb_exists. exists (b, t, p). split; auto. unfold is_crash, ask_result. rewrite Ha.
+    unfold block_result_of. rewrite Hb. reflexivity.
+Qed.
+
+(* brokers that always put an offset into an ErrNoError block: no cycle crashes, the trace covers the whole run *)
+Theorem no_crash l : forall st g,
+  (forall x, In x l -> env_offsets_ok (snd x)) -> length (trace st g l) = length l.
+Proof.
+  induction l as [|[tk e] r IH]; simpl; intros st g Hok; auto.
+  destruct (cycle (tick tk st) e) as [o|] eqn:Ec.
+  - simpl. f_equal. apply IH. auto.
+  - exfalso. apply cycle_crash_iff in Ec as [b [t [p [ans [_ [Ha Hb]]]]]].
+    apply (Hok (tk, e) (or_introl eq_refl) b ans t p Ha); rewrite Hb; reflexivity.
+Qed.
+
+(* ---------------------------------------------------------------------------------------------
+   the run the driver prints (and the probe is compared with) is the trace the theorems speak about
+   --------------------------------------------------------------------------------------------- *)
+Theorem run_entries l en :
+  In en (trace init_state None l) ->
+  wf (en_pre en) /\ cycle (en_pre en) (en_env en) = Done (en_out en).
+Proof.
+  intros Hin. destruct (trace_inv _ _ _ _ inv_init Hin) as [Hi Hc]. split; [apply Hi | auto].
+Qed.
+
+Theorem run_is_trace l : forall st g,
+  exists tail,
+    run st l = map (fun en => (fetchMetadata (en_pre en), Done (en_out en))) (trace st g l) ++ tail
+    /\ (tail = [] \/ exists f, tail = [(f, Crash)]).
+Proof.
+  induction l as [|[tk e] r IH]; simpl; intros st g.
+  - exists []. auto.
+  - destruct (cycle (tick tk st) e) as [o|] eqn:Ec.
+    + destruct (IH (co_state o) (ghost_next (tick tk st) e g)) as [tail [H1 H2]].
+      exists tail. simpl. rewrite H1. auto.
+    + exists [(fetchMetadata (tick tk st), Crash)]. simpl. eauto.
+Qed.
+
+(* ---------------------------------------------------------------------------------------------
+   non-vacuity: a concrete run exercising every hypothesis above (evaluated by vm_compute)
+   topics 1,2,3; brokers 1,2.
+     cycle 0 (tick)   : 1 = {p0@b1, p1 leaderless, p2@b2}, 2 = {p0@b2}, 3 = {all leaderless}
+     cycle 1 (no tick): broker 2 fails, (1,p0) answers error 6                       -> flag set
+     cycle 2 (no tick): forced refresh, but Partitions(2) fails                      -> old snapshot kept
+     cycle 3 (tick)   : topic 2 gone                                                 -> deleted once
+     cycle 4 (tick)   : topic 2 still gone                                           -> not again
+     cycle 5 (tick)   : topic 2 back; cycle 6 (tick): gone again                     -> deleted again
+   --------------------------------------------------------------------------------------------- *)
+Definition ex_t1 (err0 : Z) : trow :=
+  mkTrow 1 true [mkProw 0 (Good 1) err0 [100; 7]; mkProw 1 Fail 0 [50]; mkProw 2 (Good 2) 0 [300]].
+Definition ex_t2 (ok : bool) : trow := mkTrow 2 ok [mkProw 0 (Good 2) 0 [20]].
+Definition ex_t3 : trow := mkTrow 3 true [mkProw 0 Fail 0 [1]; mkProw 1 Fail 0 [2]].
+Definition ex_run : list (bool * env) :=
+  [ (true,  env_of_tables (Good [1; 2; 3]) [ex_t1 0; ex_t2 true; ex_t3] []);
+    (false, env_of_tables (Good [1; 2; 3]) [ex_t1 6; ex_t2 true; ex_t3] [2]);
+    (false, env_of_tables (Good [1; 2; 3]) [ex_t1 0; ex_t2 false; ex_t3] []);
+    (true,  env_of_tables (Good [1; 3]) [ex_t1 0; ex_t3] []);
+    (true,  env_of_tables (Good [3; 1]) [ex_t1 0; ex_t3] []);
+    (true,  env_of_tables (Good [1; 2; 3]) [ex_t1 0; ex_t2 true; ex_t3] []);
+    (true,  env_of_tables (Good [1; 3]) [ex_t1 0; ex_t3] []) ].
+Definition ex_trace := trace init_state None ex_run.
+
+(* the run does not crash: seven entries *)
+Example ex_trace_length : length ex_trace = 7%nat.
+Proof. vm_compute. reflexivity. Qed.
+
+(* asked_exactly_leaders: leaderless (1,1) and all of topic 3 are never asked; two brokers are asked *)
+Example asked_exactly_leaders_ex :
+  map (fun en => co_asks (en_out en)) (firstn 2 ex_trace)
+  = [ [(2, 2, 0); (1, 1, 0); (2, 1, 2)]; [(2, 2, 0); (1, 1, 0); (2, 1, 2)] ].
+Proof. vm_compute. reflexivity. Qed.
+
+(* answer_to_update: first offset of the list, count 3 for topic 1 although only two partitions have a leader;
+   fault_no_update: in cycle 1 broker 2 fails and (1,0) has an error code: no update at all *)
+Example answer_to_update_ex :
+  map (fun en => co_updates (en_out en)) (firstn 2 ex_trace)
+  = [ [(2, 0, 20, 1); (1, 0, 100, 3); (1, 2, 300, 3)]; [] ].
+Proof. vm_compute. reflexivity. Qed.
+
+(* error_forces_refresh: the error of cycle 1 sets the flag, cycle 2 starts with it although no tick *)
+Example error_forces_refresh_ex :
+  map (fun en => (fetchMetadata (en_pre en), fetchMetadata (co_state (en_out en)))) (firstn 3 ex_trace)
+  = [ (true, false); (false, true); (true, false) ].
+Proof. vm_compute. reflexivity. Qed.
+
+(* delete_exactly_once / failed_refresh_keeps_snapshot / leaderless_not_deleted: topic 2 is deleted in cycles 3 and
+   6 only; the failed refresh of cycle 2 deletes nothing; topic 3 (no leaders at all) is never deleted *)
+Example delete_exactly_once_ex :
+  map (fun en => co_deletes (en_out en)) ex_trace = [ []; []; []; [2]; []; []; [2] ].
+Proof. vm_compute. reflexivity. Qed.
+
+Example refreshed_ex :
+  map (fun en => refreshed (en_pre en) (en_env en)) ex_trace
+  = [ Some [1; 2; 3]; None; None; Some [1; 3]; Some [3; 1]; Some [1; 2; 3]; Some [1; 3] ].
+Proof. vm_compute. reflexivity. Qed.
+
+Example ghost_topics_ex :
+  map (fun en => ghost_topics (en_ghost en)) ex_trace
+  = [ []; [1; 2; 3]; [1; 2; 3]; [1; 2; 3]; [1; 3]; [3; 1]; [1; 2; 3] ].
+Proof. vm_compute. reflexivity. Qed.
+
+(* count_bounds_partition: the example's environments number their partitions 0..n-1 *)
+Definition table_ids_ok (tb : list trow) : bool :=
+  forallb (fun r => forallb (fun p => (0 <=? p) && (p <? Z.of_nat (length (tr_parts r)))) (map pr_id (tr_parts r))) tb.
+
+Lemma find_trow_in t tb r : find_trow t tb = Some r -> In r tb.
+Proof.
+  induction tb as [|a q IH]; simpl; [discriminate|].
+  destruct (tr_id a =? t); intros H; [inversion H; auto | auto].
+Qed.
+
+Lemma env_of_tables_ids_ok tops tb failing :
+  table_ids_ok tb = true -> env_ids_ok (env_of_tables tops tb failing).
+Proof.
+  intros Hok t ps p Hps Hp. simpl in Hps. destruct (find_trow t tb) as [r|] eqn:Ef; [|discriminate].
+  destruct (tr_ok r); [|discriminate]. inversion Hps; subst.
+  apply find_trow_in in Ef. unfold table_ids_ok in Hok. rewrite forallb_forall in Hok.
+  specialize (Hok r Ef). rewrite forallb_forall in Hok. specialize (Hok p Hp).
+  rewrite map_length. apply andb_true_iff in Hok as [H1 H2]. apply Z.leb_le in H1. apply Z.ltb_lt in H2. lia.
+Qed.
+
+Example env_ids_ok_ex : forall x, In x ex_run -> env_ids_ok (snd x).
+Proof.
+  intros x Hx. unfold ex_run in Hx. simpl in Hx.
+  repeat (destruct Hx as [<-|Hx]; [apply env_of_tables_ids_ok; vm_compute; reflexivity|]).
+  contradiction.
+Qed.
+
+Example count_bounds_partition_ex :
+  forallb (fun en => forallb (fun u : update => let '(t, p, off, c) := u in (0 <=? p) && (p <? c)) (co_updates (en_out en)))
+          ex_trace = true
+  /\ existsb (fun en => negb (Nat.eqb (length (co_updates (en_out en))) 0)) ex_trace = true.
+Proof. vm_compute. auto. Qed.
+
+(* a crash: an ErrNoError answer with no offsets ends the run *)
+Example crash_ex :
+  trace init_state None [(true, env_of_tables (Good [1]) [mkTrow 1 true [mkProw 0 (Good 1) 0 []]] [])] = [].
+Proof. vm_compute. reflexivity. Qed.
+
+(* fault_no_update: in cycle 1 block (1,2) is in failing broker 2's request and block (1,0) came back with error 6:
+   both hypotheses of the theorem occur, and the cycle emits no update *)
+Example fault_no_update_ex :
+  match nth_error ex_trace 1 with
+  | Some en =>
+      existsb (fun a => if ask_eq_dec a (2, 1, 2) then true else false) (co_asks (en_out en)) = true
+      /\ (match e_answer (en_env en) 2 with Fail => true | Good _ => false end) = true
+      /\ existsb (fun a => if ask_eq_dec a (1, 1, 0) then true else false) (co_asks (en_out en)) = true
+      /\ (match e_answer (en_env en) 1 with Good ans => fst (ans 1 0) | Fail => 0 end) = 6
+      /\ co_updates (en_out en) = []
+  | None => False
+  end.
+Proof. vm_compute. auto. Qed.
+
+(* failed_refresh_keeps_snapshot: cycle 2 attempts the refresh (flag set), Partitions(2) fails, the key set stays *)
+Example failed_refresh_keeps_snapshot_ex :
+  match nth_error ex_trace 2 with
+  | Some en => fetchMetadata (en_pre en) = true /\ refreshed (en_pre en) (en_env en) = None
+               /\ keys (snap (co_state (en_out en))) = keys (snap (en_pre en))
+               /\ keys (snap (en_pre en)) = [3; 2; 1]
+  | None => False
+  end.
+Proof. vm_compute. auto. Qed.
+
+(* leaderless_not_deleted: topic 3 is listed with two partitions, none has a leader: key kept, ids empty, count 2 *)
+Example leaderless_not_deleted_ex :
+  match nth_error ex_trace 0 with
+  | Some en => refreshed (en_pre en) (en_env en) = Some [1; 2; 3]
+               /\ map (fun p => has_leader (en_env en) 3 p) [0; 1] = [false; false]
+               /\ option_map (fun i => (ti_ids i, ti_count i)) (smap_find 3 (snap (co_state (en_out en)))) = Some ([], 2)
+  | None => False
+  end.
+Proof. vm_compute. auto. Qed.
+
+(* How "has a leader" is to be read (C11.1): the set of partitions asked is the one of the last complete metadata
+   read; the leader asked is the current one.  A partition that gains a leader between two metadata reads is asked
+   from the next read on, not before (cycle 1 has no tick and no error: no re-read). *)
+Example snapshot_between_refreshes_ex :
+  let t0 := mkTrow 1 true [mkProw 0 (Good 1) 0 [10]; mkProw 1 Fail 0 [20]] in
+  let t1 := mkTrow 1 true [mkProw 0 (Good 2) 0 [11]; mkProw 1 (Good 2) 0 [21]] in
+  map (fun en => (co_asks (en_out en), co_updates (en_out en)))
+      (trace init_state None [ (true, env_of_tables (Good [1]) [t0] []);
+                               (false, env_of_tables (Good [1]) [t1] []);
+                               (true, env_of_tables (Good [1]) [t1] []) ])
+  = [ ([(1, 1, 0)], [(1, 0, 10, 2)]);
+      ([(2, 1, 0)], [(1, 0, 11, 2)]);
+      ([(2, 1, 0); (2, 1, 1)], [(1, 0, 11, 2); (1, 1, 21, 2)]) ].
+Proof. vm_compute. reflexivity. Qed.
+
+(* count_bounds_partition needs its assumption: a client that lists partition ids {1} for a one-partition topic
+   (ids not 0..n-1) makes the module send partition 1 with count 1 *)
+Example count_bounds_needs_contiguous_ids :
+  map (fun en => co_updates (en_out en))
+      (trace init_state None [ (true, env_of_tables (Good [1]) [mkTrow 1 true [mkProw 1 (Good 1) 0 [10]]] []) ])
+  = [ [(1, 1, 10, 1)] ].
+Proof. vm_compute. reflexivity. Qed.
